@@ -80,8 +80,10 @@ def docstr(draw, styles=("rest", "google", "numpydoc"), allow_star=False, multil
     style = draw(st.sampled_from(styles))
     paras = draw(st.lists(st.lists(hw, min_size=1, max_size=3), min_size=0, max_size=3))
     L = []
-    for p in paras:
-        L += p + [""] * draw(st.integers(1, 2))
+    for k, p in enumerate(paras):
+        last = k == len(paras) - 1
+        # 0 blank lines after the LAST paragraph = the section follows the header text directly
+        L += p + [""] * draw(st.integers(0 if last else 1, 2))
     header_lines = [l for l in L if l]
     L += [""] * draw(st.integers(0, 2))
     sec, params, rtyp = draw(section(style, allow_star=allow_star, multiline=multiline))
